@@ -1,4 +1,5 @@
 import Beetswap.Proofs.ClientQuery
+import Beetswap.Proofs.ClientWantlistGrowth
 /-!
 # C03 — Each query gets at most one outcome, and the right one
 
@@ -97,5 +98,16 @@ example : ∃ x outs, Reach x outs ∧ eventsFor outs 1 = 1 ∧ eventsFor outs 0
   ⟨_, _, ⟨[.connect 1 1, .get 7 true, .get 7 true, .drain (fun _ => none), .complete 0 .miss,
            .complete 1 .miss, .drain (fun _ => none), .cancel 0, .msg 1 [] [] [(7, 9)],
            .drain (fun _ => none)], rfl⟩, by decide, by decide⟩
+
+/-- C03, "a CID present in the local blockstore is answered from it; a failing lookup yields an error":
+a poll of the behaviour adds a CID to the wantlist — and so to what is asked of the network — only if a
+local blockstore lookup for that CID had completed with a *miss* and was not cancelled. A hit, an
+error of any kind and a cancelled lookup never turn into a request to the network. (The rule the
+monitor "a CID enters the wantlist only because a local lookup for it missed" checks on the
+implementation's traces.) -/
+theorem wantlist_grows_only_by_miss (s : Beetswap.Client.State) (now seq : Nat) (pref : Nat → Option Nat) (k : Nat)
+    (h : k ∈ (Beetswap.Client.drain s now seq pref).1.wantlist.cids) :
+    k ∈ s.wantlist.cids ∨ ∃ t ∈ s.tasks, Proofs.ClientQuery.MissedLookup t k :=
+  Proofs.ClientQuery.drain_wantlist s now seq pref k h
 
 end Beetswap.Props.C03
